@@ -25,6 +25,7 @@ from ..sellib import argmax_source
 from ..sym import NONE, State, Term, mentions, show, subterms
 from ..util import (SELF, arg, bind_args, callee, guards_of, is_call, method_call, paths,
                     returning, short, where)
+from ..pitlib import storage_kinds
 from . import c10
 
 EXPLANATION = ('Selection-source analysis (shared with C10), argument-slot agreement of the '
@@ -276,7 +277,50 @@ def r02e(ctx):
     ctx.floor('R02e', 'forward paths', n, 6)
 
 
+def r02g(ctx):
+    """The eval-mode model is a function of its current coefficients and input: no forward on the
+    MPS path returns a value that an EARLIER call computed from that call's arguments and left
+    in a plain attribute (a memo filled under ``is None`` and reused): the scales a bias is
+    quantised with, for instance, change with the precision selection."""
+    repo = ctx.repo
+    n = 0
+    for ci in sorted(repo.classes.values(), key=lambda c: c.qualname):
+        if not ci.module.name.startswith('plinio.methods.mps'):
+            continue
+        fwd = ci.methods.get('forward')
+        if fwd is None:
+            continue
+        kinds = storage_kinds(repo, ci)
+        args = {('param', x) for x in fwd.params[1:]}
+        ps = returning(paths(repo, fwd))
+        stored = {}
+        for p in ps:
+            for e in p.events:
+                if e.kind == 'setattr' and e.data[0] == SELF and \
+                        kinds.get(e.data[1], 'plain') == 'plain' and \
+                        mentions(e.data[2], lambda y: y in args):
+                    stored.setdefault(e.data[1], e)
+        if not stored:
+            continue
+        n += 1
+        bad = None
+        for p in ps:
+            here = {e.data[1] for e in p.events if e.kind == 'setattr' and e.data[0] == SELF}
+            for a, ev in stored.items():
+                if a not in here and p.retval is not None and \
+                        mentions(p.retval, lambda y, a=a: y == ('attr', SELF, a)):
+                    bad = (a, ev)
+        ctx.ob('R02g', f'{ci.name}.forward returns nothing left by an earlier call', bad is None,
+               'every returned value is computed from this call\'s arguments' if bad is None else
+               f'a path returns self.{bad[0]} without recomputing it: the attribute holds what '
+               f'an earlier call computed from ITS arguments ({short(bad[1].data[2], 70)}); when '
+               f'the coefficients (hence the scales) change between two eval-mode forwards the '
+               f'model keeps the old value while the exported network recomputes it', where(fwd))
+    ctx.floor('R02g', 'forwards that store a function of their arguments', n, 1)
+
+
 def run(ctx):
+    r02g(ctx)
     c10.r10a(ctx)          # R10a == R02a
     for o in ctx.obligations:
         if o.rule == 'R10a':
